@@ -3,6 +3,7 @@ package sim
 import (
 	"fmt"
 	"runtime"
+	"runtime/debug"
 	"sort"
 	"strconv"
 	"strings"
@@ -85,10 +86,10 @@ type Sched struct {
 	TimersPending bool // bbolt timers may be pending (Batch): advancing the clock is always an option
 	Stickiness    int  // 0..100: probability of continuing with the task that ran last
 	running       bool
-	Adopted       int  // goroutines adopted at ordinary hooks
+	Adopted       int            // goroutines adopted at ordinary hooks
 	Points        map[string]int // how often selected hook points were passed (io.*) / a task was found blocked on a lock
-	Draining      bool // decision budget used up: finish deterministically without pre-emption
-	Stuck         bool // even draining did not finish: harness trouble, never a verdict
+	Draining      bool           // decision budget used up: finish deterministically without pre-emption
+	Stuck         bool           // even draining did not finish: harness trouble, never a verdict
 }
 
 // NewSched creates a scheduler drawing its decisions from tape.
@@ -124,6 +125,9 @@ func (s *Sched) Go(name string, fn func(t *Task)) *Task {
 	s.tasks = append(s.tasks, t)
 	s.mu.Unlock()
 	go func() {
+		// a memory fault in the code under test (e.g. a read through a stale
+		// mapping) becomes a panic of this task instead of killing the process
+		debug.SetPanicOnFault(true)
 		s.mu.Lock()
 		t.goid = goid()
 		s.byGoid[t.goid] = t
